@@ -489,9 +489,36 @@ func TestC18_Escapes(t *testing.T) {
 
 // ---- KEYS / ARGV hygiene -------------------------------------------------------
 
+// spinScript never ends by itself.
+const spinScript = "local x = #KEYS + #ARGV while true do x = x + 1 end"
+
+// filterWriteProbe runs SCAN <key> with depth WHEREEVAL clauses, the last of
+// which tries tile38.pcall('set', ...) and tile38.pcall('get', ...): inside a
+// filter EVAL_CMD is nil, so both must be refused; nothing may be written (the
+// search runs under the shared lock). Returns "" when all is well.
+func filterWriteProbe(conn *t38.Conn, key string, depth int, tok string) string {
+	before, _ := serverField(conn, "aof_size")
+	cmd := []string{"SCAN", key}
+	for i := 0; i < depth-1; i++ {
+		cmd = append(cmd, "WHEREEVAL", "return true", "0")
+	}
+	cmd = append(cmd, "WHEREEVAL", "local w = tile38.pcall('set','c18fw','x','string',ARGV[1]) local r = tile38.pcall('get','"+key+"','o') return w.err ~= nil and r.err ~= nil", "1", tok, "COUNT")
+	v, err := conn.Do(cmd...)
+	ex, _ := conn.Do("EXISTS", "c18fw", "x")
+	after, _ := serverField(conn, "aof_size")
+	if ex.Int != 0 || before != after {
+		conn.Do("DROP", "c18fw")
+		return fmt.Sprintf("a WHEREEVAL filter (clause %d of a plain SCAN, read lock) wrote through tile38.pcall('set',...): EXISTS c18fw x = %v, aof_size %s -> %s, scan reply %v", depth, ex, before, after, v)
+	}
+	if err != nil || !v.Equal(t38.Int(1)) {
+		return fmt.Sprintf("tile38.pcall inside WHEREEVAL clause %d was not refused: scan reply %v (err %v)", depth, v, err)
+	}
+	return ""
+}
+
 type hygCase struct {
 	Mode    string   `json:"mode"`
-	Kind    string   `json:"kind"` // ok | runtime-error | compile-error | unknown-sha | short-keys | huge-numkeys | timeout
+	Kind    string   `json:"kind"` // ok | runtime-error | compile-error | unknown-sha | short-keys | huge-numkeys | timeout | timed-out
 	Keys    []string `json:"keys"`
 	Args    []string `json:"args"`
 	Checker string   `json:"checker"`
@@ -532,10 +559,20 @@ func runHygiene(t ev.Failer, c *ev.Collector, conn *t38.Conn, h hygCase) {
 		cmd[2] = "100000000000000"
 	case "timeout":
 		cmd = append([]string{"TIMEOUT", "10"}, scriptCmd("evalro", "return {KEYS[1], ARGV[1], DEADLINE}", h.Keys, h.Args)...)
+	case "timed-out":
+		// a script that never ends by itself: only the TIMEOUT can stop it
+		first, err := prepScript(conn, h.Mode, spinScript)
+		if err != nil {
+			c.Fail(t, "script-transport", err.Error(), rep)
+		}
+		cmd = append([]string{"TIMEOUT", "0.02"}, scriptCmd(h.Mode, first, h.Keys, h.Args)...)
 	}
 	fv, err := conn.Do(cmd...)
 	if err != nil {
 		c.Fail(t, "script-transport", err.Error(), rep)
+	}
+	if h.Kind == "timed-out" && !(fv.IsErr() && strings.Contains(fv.Str, "timeout")) {
+		c.Fail(t, "hygiene:timeout-not-enforced", fmt.Sprintf("%q answered %s, expected the timeout error", cmd, fv), rep)
 	}
 	if h.Kind != "ok" && h.Kind != "timeout" && !fv.IsErr() {
 		key := "hygiene:invalid-call-not-refused"
@@ -551,6 +588,11 @@ func runHygiene(t ev.Failer, c *ev.Collector, conn *t38.Conn, h hygCase) {
 	// a WHEREEVAL clause runs on the same pooled interpreters and is given only
 	// ARGV: whatever an EVAL left behind is visible to it
 	errPath := h.Kind == "compile-error" || h.Kind == "unknown-sha"
+	// a WHEREEVAL filter can never write: tile38.call/pcall inside the filter
+	// of a plain SCAN must be refused and leave no trace
+	if d := filterWriteProbe(conn, "hyg", 1, h.Keys[0]); d != "" {
+		c.Fail(t, "sandbox:whereeval-filter-can-write", fmt.Sprintf("after %q (%s): %s", cmd, h.Kind, d), rep)
+	}
 	if errPath && ev.KnownActive(findingLeftover) {
 		c.Excluded(findingLeftover)
 	} else {
@@ -638,7 +680,7 @@ func runPoolCycle(t testing.TB, c *ev.Collector, srv *t38.Srv, round int) (disti
 func TestC18_Hygiene(t *testing.T) {
 	c := ev.New(prop, "hygiene", "exploration")
 	t.Cleanup(c.Flush)
-	c.Rule("a first call (EVAL variants; ending normally, in a runtime error, a compile error, an unknown digest, too few keys, numkeys = 10^14 (regression probe crash-eval-huge-numkeys), or under TIMEOUT) carries 1-4 generated unique tokens as KEYS and ARGV; then a SCAN ... WHEREEVAL clause (which runs on the same pooled interpreter and is given only ARGV) must find KEYS, EVAL_CMD and DEADLINE nil, and 7 consecutive checker calls (drawn variant) without keys/args, the last one with its own: each must see exactly its own KEYS/ARGV, DEADLINE nil, EVAL_CMD = its own command and none of the tokens. Pool cycling: 9 concurrent busy EVALNA scripts with tokens hold 9 interpreters at once, then 9 concurrent checkers: each sees only its own arguments; the number of distinct interpreters (tostring(_G)) the checkers ran on is counted (>= 6 wanted). Non-trivial: every case; distinct by kind, modes, key/arg counts.")
+	c.Rule("a first call (EVAL variants; ending normally, in a runtime error, a compile error, an unknown digest, too few keys, numkeys = 10^14 (regression probe crash-eval-huge-numkeys), under a TIMEOUT it meets, or as a never-ending script really cut short by TIMEOUT 0.02 (reply must be the timeout error)) carries 1-4 generated unique tokens as KEYS and ARGV; then a SCAN ... WHEREEVAL clause (which runs on the same pooled interpreter and is given only ARGV) must find KEYS, EVAL_CMD and DEADLINE nil, a WHEREEVAL filter that tries tile38.pcall('set',...) must be refused and write nothing, and 7 consecutive checker calls (drawn variant) without keys/args, the last one with its own: each must see exactly its own KEYS/ARGV, DEADLINE nil, EVAL_CMD = its own command and none of the tokens. Pool cycling: 9 concurrent busy EVALNA scripts with tokens hold 9 interpreters at once, then 9 concurrent checkers: each sees only its own arguments; the number of distinct interpreters (tostring(_G)) the checkers ran on is counted (>= 6 wanted). Non-trivial: every case; distinct by kind, modes, key/arg counts.")
 	if ev.KnownActive(findingPoison) {
 		c.Excluded(findingPoison)
 	}
@@ -653,7 +695,7 @@ func TestC18_Hygiene(t *testing.T) {
 		seq++
 		h := hygCase{
 			Mode:    rapid.SampledFrom([]string{"eval", "evalsha", "evalro", "evalrosha", "evalna", "evalnasha"}).Draw(rt, "mode"),
-			Kind:    rapid.SampledFrom([]string{"ok", "runtime-error", "compile-error", "unknown-sha", "short-keys", "huge-numkeys", "timeout"}).Draw(rt, "kind"),
+			Kind:    rapid.SampledFrom([]string{"ok", "runtime-error", "compile-error", "unknown-sha", "short-keys", "huge-numkeys", "timeout", "timed-out", "timed-out"}).Draw(rt, "kind"),
 			Checker: rapid.SampledFrom([]string{"eval", "evalsha", "evalro", "evalrosha", "evalna", "evalnasha"}).Draw(rt, "checker"),
 		}
 		nk := rapid.IntRange(1, 4).Draw(rt, "nkeys")
